@@ -306,6 +306,11 @@ operator^=(result_options& lhs, result_options rhs) noexcept
             return *this;
         }
 
+        bool is_value() const noexcept
+        {
+            return is_value_;
+        }
+
         reference value() 
         {
             return is_value_ ? val_ : *ptr_;
@@ -3487,7 +3492,15 @@ namespace detail {
                             reference val = tok.selector_->evaluate(context, root, path_node_type{}, item.value(), options, ec);
 
                             stack.pop_back();
-                            stack.emplace_back(stack_item_type(std::addressof(val)));
+                            if (item.is_value())
+                            {
+                                // the selected node lies inside the temporary that item owns, and item ends here
+                                stack.emplace_back(value_type(val));
+                            }
+                            else
+                            {
+                                stack.emplace_back(stack_item_type(std::addressof(val)));
+                            }
                             break;
                         }
                         default:
